@@ -391,7 +391,7 @@ pub fn run(ctx: &mut Ctx) -> Result<(), Violation> {
     ctx.stage("readme-identities", true, (st, None))?;
 
     let kmax = ctx.tier.pick(3usize, 4usize);
-    let cases = ctx.tier.pick(4_000, 100_000);
+    let cases = ctx.tier.pick(12_000, 200_000);
     let r = par_random(ctx, "random-monotone-bodies", cases, 260, |tape, st| {
         let mut t = Tape::new(tape);
         // k = other variables; thorough uses k = 4 for a fraction (65536 candidates each)
@@ -429,8 +429,9 @@ pub fn run(ctx: &mut Ctx) -> Result<(), Violation> {
     });
     ctx.stage("random-monotone-bodies-knaster-tarski", false, r)?;
 
-    // scoping on general formulas (fixed point anywhere, shadowing forced by a small name pool)
-    let cases = ctx.tier.pick(4_000, 100_000);
+    // scoping on general formulas (fixed point anywhere, shadowing made likely by a small name pool;
+    // formulas without shadowing are counted as discarded)
+    let cases = ctx.tier.pick(60_000, 1_000_000);
     let r = par_random(ctx, "scoping", cases, 260, |tape, st| {
         let mut t = Tape::new(tape);
         let mut cfg = Cfg::standard(3, 2 + t.choose(4));
